@@ -553,3 +553,9 @@ package core
 //@ props C15
 //@ pure
 //@ ensures result.Slot == s.Slot + 1 && result.SlotsPerEpoch == s.SlotsPerEpoch && result.SlotDuration == s.SlotDuration
+
+// ---- C16: Add hands the duty to the owning goroutine and returns its verdict -------------------------
+//@ func (d *deadliner) Add
+//@ props C16
+//@ callreq send d.inputChan: a1.duty == duty && a1.success == success
+//@ ensures ncalls("send d.inputChan") <= 1
